@@ -365,6 +365,16 @@ def run_runs(case):
                 plan = {'layers': {ls['name']: {'tearDown': 'nie'}
                                    for ls in layers}}
                 counters['resume_runs'] = counters.get('resume_runs', 0) + 1
+            if mode == 'cli' and rng.random() < 0.3:
+                # a layer that can neither be set up nor be torn down: it
+                # is run (and fails) once, in its place
+                ln = rng.choice([ls['name'] for ls in layers])
+                plan = {'layers': {ln: {
+                    'setUp': 'raise:' + rng.choice(['ValueError', 'OSError']),
+                    'tearDown': 'nie'}}}
+                counters['runs_with_a_layer_that_fails_both_ways'] = \
+                    counters.get('runs_with_a_layer_that_fails_both_ways',
+                                 0) + 1
             if mode == 'list':
                 extra = ['--list-tests']
             if mode == 'par':
@@ -421,6 +431,24 @@ def run_runs(case):
                 if spawned.count(ln) != 1:
                     V('layer-run-more-than-once', 'order-layer-spawned-twice',
                       layer=ln, spawned=spawned, crashed_in=crashed, **ctx)
+            # ... and a layer that is handed to a subprocess has not been
+            # begun by the process that hands it over (no set-up attempt of
+            # its own there: layers with tests come before the layers
+            # derived from them)
+            for e in w.events:
+                if e['k'] != 'spawn' or not e.get('layer'):
+                    continue
+                short = model.short(e['layer'])
+                begun = [x for x in w.events
+                         if x['k'] == 'layer.setUp.enter' and
+                         x.get('layer') == short and x['pid'] == e['pid']
+                         and x['seq'] < e['seq']]
+                counters['handovers_checked'] = counters.get(
+                    'handovers_checked', 0) + 1
+                if begun:
+                    V('layer-run-more-than-once',
+                      'order-layer-begun-then-handed-over', layer=short,
+                      **ctx)
             want = {vworld.full_layer_name(spec, k) for k in owners}
             if set(hdr) != want:
                 V('layers-run-differ', 'order-layer-set', want=sorted(want),
